@@ -20,6 +20,22 @@ RECIPES = [
 ]
 
 
+# recipes whose result is not a float64 array (a mask, single precision, integers): what is stored is that value as a
+# 64-bit float; chosen by a derived generator so that the RECIPES choices of a seed stay what they were
+TYPED_RECIPES = [
+    ('mask', 1, 'def recipe(field_indexes, box_array):\n    """{n0}"""\n    return box_array[..., field_indexes[{a!r}]] > box_array[..., field_indexes[{b!r}]]\n'),
+    ('single', 1, 'import numpy as np\ndef recipe(field_indexes, box_array):\n    """{n0}"""\n    return np.nan_to_num(box_array[..., field_indexes[{a!r}]]).clip(-1e30, 1e30).astype(np.float32)\n'),
+    ('integer', 1, 'import numpy as np\ndef recipe(field_indexes, box_array):\n    """{n0}"""\n    return np.floor(np.nan_to_num(box_array[..., field_indexes[{a!r}]]).clip(-1e6, 1e6)).astype(np.int64)\n'),
+    ('masks', 2, 'import numpy as np\ndef recipe(field_indexes, box_array):\n    """{n0} {n1}"""\n    a = box_array[..., field_indexes[{a!r}]]\n    b = box_array[..., field_indexes[{b!r}]]\n    return np.stack([a > b, a <= 0], axis=3)\n'),
+]
+
+
+def pick_recipe(rng, seed, k):
+    r = rng.choice(RECIPES)
+    r2 = random.Random(seed * 613 + k)
+    return r2.choice(TYPED_RECIPES) if r2.random() < 0.25 else r
+
+
 def load_recipe(path):
     spec = importlib.util.spec_from_file_location('oracle_recipe', path)
     mod = importlib.util.module_from_spec(spec)
@@ -119,7 +135,7 @@ def run_case(seed):
     for lk in pf.meta['layouts']:
         count(f"layout={lk}")
     for k in range(2):
-        rkind, ncomp, tmpl = rng.choice(RECIPES)
+        rkind, ncomp, tmpl = pick_recipe(rng, seed, k)
         a, b = rng.choice(keys), rng.choice(keys)
         new_names = [f"cooked_{rkind}_{i}" for i in range(ncomp)]
         src = tmpl.format(a=a, b=b, n0=new_names[0], n1=new_names[-1] if ncomp > 1 else '', n2=new_names[-1])
@@ -233,7 +249,7 @@ def run_builtin_case(seed):
     pf = gen.gen_plotfile(rng, ndims=3, max_blocks=2, nfields=(len(fields), len(fields)), nlevels=rng.choice([1, 2]), payload='random', bf=2)
     pf.fields = fields
     y0, it = fields.index(f"Y({sp[0]})"), fields.index('temp')
-    covered = 0
+    covered = half = 0
     for lev in pf.levels:
         for d in lev.data:
             shp = d.shape[:3]
@@ -248,6 +264,16 @@ def run_builtin_case(seed):
                     d[c + (it,)] = 0.0
                     d[c + (slice(y0, y0 + len(sp)),)] = 0.0
                     covered += 1
+            # cells where only ONE of the two cleaning rules applies: no temperature but a mixture, a temperature but no mixture
+            r2 = random.Random(seed * 977 + 5 + int(d.size))
+            if r2.random() < 0.5:
+                for _ in range(r2.randint(1, 2)):
+                    c = tuple(r2.randrange(n) for n in shp)
+                    if r2.random() < 0.5:
+                        d[c + (it,)] = 0.0
+                    else:
+                        d[c + (slice(y0, y0 + len(sp)),)] = 0.0
+                    half += 1
     keys = list(fields)
     fidx = {k: i for i, k in enumerate(keys)}
     img = diskimg.image_of(pf)
@@ -256,6 +282,7 @@ def run_builtin_case(seed):
     img_sx = diskimg.image_sx(img)
     count(f"levels={pf.nlevels}")
     count(f"cells without a state={'yes' if covered else 'no'}")
+    count(f"cells with only a temperature or only a mixture={'yes' if half else 'no'}")
     for k in range(2):
         recipe = rng.choice(['HRR', 'ENT', 'SRi', 'SDi', 'RRi'])
         species = reactions = None
@@ -332,8 +359,11 @@ def run_builtin_case(seed):
             for (lo, hi), data in zip(o['boxes'], o['data']):
                 new = data[..., nk:]
                 has_nan = has_nan or bool(np.isnan(new).any())
+                # +0.0 and -0.0 in one component: np.min / np.max return whichever comes first, the model orders bit patterns
+                has_nan = has_nan or any(bool((new[..., c] == 0).any()) and len(set(np.signbit(new[..., c][new[..., c] == 0]).tolist())) == 2
+                                         for c in range(new.shape[-1]))
                 table.append([lvi, list(lo), list(hi), [np.asarray(new[..., c], dtype='<f8').tobytes(order='F') for c in range(new.shape[-1])]])
-        count(f"recipe values contain NaN={has_nan}")
+        count(f"recipe values contain NaN or zeros of both signs={has_nan}")
         if has_nan:
             # the model's min/max order is on non-NaN bit patterns (np.min propagates NaN): the directory comparison is
             # skipped, the property oracle above (which reads NaN extrema as NaN) has decided the case
